@@ -1,3 +1,83 @@
-From RP Require Import Lib.Base Model.Mono Spec.Clip.
-Theorem placeholder : True. Proof. exact I. Qed.
-Print Assumptions placeholder.
+(* C16 — Drawing never escapes the canvas or its clip region.
+   Only statements here; each closed by [exact] of a lemma from Proofs/. *)
+From RP Require Import Lib.Base Model.Mono Spec.Clip Proofs.PixelProofs Proofs.DrawProofs Proofs.OpsProofs.
+
+(* A fresh canvas of any size >= 0 is well-formed: buffer length = ceil(W/8)*H, all bytes < 256. *)
+Theorem c16_new_image_wf : forall w h, 0 <= w -> 0 <= h -> wf_img (new_image w h).
+Proof. exact wfg_new_image. Qed.
+Print Assumptions c16_new_image_wf.
+
+(* DrawPixel, for all Z coordinates: well-formedness kept, and the pixel view changes exactly at
+   (x+bx, y+by) when that lies in the clip rectangle - nowhere else (no other row, no padding bit). *)
+Theorem c16_draw_pixel_frame : forall g x y col d,
+  wfg g d ->
+  wfg g (draw_pixel g x y col d) /\
+  forall c r, 0 <= c < 8 * gwib g -> 0 <= r < gH g ->
+    px (gwib g) (draw_pixel g x y col d) c r =
+    if (c =? x + gbx g) && (r =? y + gby g) && in_clip g c r then xorb col (ginv g) else px (gwib g) d c r.
+Proof. exact draw_pixel_px. Qed.
+Print Assumptions c16_draw_pixel_frame.
+
+Theorem c16_pixel_outside_dropped : forall g x y col d,
+  in_clip g (x + gbx g) (y + gby g) = false -> draw_pixel g x y col d = d.
+Proof. exact pixel_outside_dropped. Qed.
+Print Assumptions c16_pixel_outside_dropped.
+
+(* Every operation (all 19 kinds), any arguments: size kept, and any changed pixel of the
+   buffer (padding columns included in the quantifier) lies in clip ∩ footprint. *)
+Theorem c16_op_frame : forall (i : img) (o : op),
+  wf_img i ->
+  wf_img (run_op i o) /\
+  gW (ig (run_op i o)) = gW (ig i) /\ gH (ig (run_op i o)) = gH (ig i) /\ gwib (ig (run_op i o)) = gwib (ig i) /\
+  zlen (idata (run_op i o)) = zlen (idata i) /\
+  forall c r, in_buffer (ig i) c r ->
+    px (gwib (ig i)) (idata (run_op i o)) c r <> px (gwib (ig i)) (idata i) c r ->
+    in_clip (ig i) c r = true /\ footprint (it i) o (c - gbx (ig i)) (r - gby (ig i)) = true.
+Proof. exact op_frame. Qed.
+Print Assumptions c16_op_frame.
+
+Theorem c16_padding_untouched : forall (i : img) (o : op) c r,
+  wf_img i -> gW (ig i) <= c < 8 * gwib (ig i) -> 0 <= r < gH (ig i) ->
+  px (gwib (ig i)) (idata (run_op i o)) c r = px (gwib (ig i)) (idata i) c r.
+Proof. exact op_padding. Qed.
+Print Assumptions c16_padding_untouched.
+
+(* Op lists of any length from any well-formed image (in particular from new_image). *)
+Theorem c16_ops_frame : forall (ops : list op) (i : img),
+  wf_img i ->
+  wf_img (run_ops i ops) /\
+  gW (ig (run_ops i ops)) = gW (ig i) /\ gH (ig (run_ops i ops)) = gH (ig i) /\ gwib (ig (run_ops i ops)) = gwib (ig i) /\
+  zlen (idata (run_ops i ops)) = zlen (idata i) /\
+  forall c r, in_buffer (ig i) c r ->
+    px (gwib (ig i)) (idata (run_ops i ops)) c r <> px (gwib (ig i)) (idata i) c r ->
+    exists pre o post, ops = pre ++ o :: post /\
+      let j := run_ops i pre in
+      in_clip (ig j) c r = true /\ footprint (it j) o (c - gbx (ig j)) (r - gby (ig j)) = true.
+Proof. exact ops_frame. Qed.
+Print Assumptions c16_ops_frame.
+
+(* Single pixels, straight lines and filled rectangles set EXACTLY the clipped footprint. *)
+Theorem c16_exact : forall (i : img) (o : op) (col : bool),
+  wf_img i -> exact_colour o = Some col ->
+  forall c r, in_buffer (ig i) c r ->
+    px (gwib (ig i)) (idata (run_op i o)) c r =
+    if in_clip (ig i) c r && footprint (it i) o (c - gbx (ig i)) (r - gby (ig i))
+    then xorb col (ginv (ig i)) else px (gwib (ig i)) (idata i) c r.
+Proof. exact op_exact. Qed.
+Print Assumptions c16_exact.
+
+(* No panic: the only unchecked slice reads of the drawing code are the font tables; on the
+   tables REGENERATED from /repo every index is in range (3 fonts x 2 modes x 256 chars). *)
+Theorem c16_font_reads_in_range : font_reads_ok = true.
+Proof. exact font_reads_ok_true. Qed.
+Print Assumptions c16_font_reads_in_range.
+
+(* Non-vacuity: a concrete well-formed image with a bounding box, an op that does change pixels. *)
+Example c16_nonvacuous :
+  let i := run_ops (new_image 12 5) [OSetBBox 2 1 7 3; OFillRect (-3) (-2) 30 30 true] in
+  wf_img i /\ idata i = [255; 128; 255; 128; 255; 128; 255; 128; 0; 0] /\
+  exact_colour (OFillRect (-3) (-2) 30 30 true) = Some true.
+Proof.
+  split; [|split; reflexivity].
+  apply (proj1 (ops_frame _ _ (wfg_new_image 12 5 ltac:(lia) ltac:(lia)))).
+Qed.
